@@ -40,7 +40,7 @@ var c10Events = []string{
 }
 
 func c10Gen(rt *rapid.T) c10Plan {
-	mode := rapid.SampledFrom([]string{"forge", "forge", "cross-event", "cross-event", "cross-round"}).Draw(rt, "mode")
+	mode := rapid.SampledFrom([]string{"forge", "forge", "cross-event", "cross-event", "cross-round", "later", "later", "stale-batch"}).Draw(rt, "mode")
 	nt := rapid.SampledFrom([][2]int{{2, 2}, {3, 2}, {4, 3}}).Draw(rt, "nt")
 	p := c10Plan{Mode: mode, N: nt[0], T: nt[1], Step: rapid.IntRange(0, 500).Draw(rt, "step"),
 		Other: rapid.IntRange(1, 7).Draw(rt, "other"), Event: rapid.IntRange(0, len(c10Events)-1).Draw(rt, "event"),
@@ -48,8 +48,12 @@ func c10Gen(rt *rapid.T) c10Plan {
 	switch mode {
 	case "cross-round":
 		p.Trace = "tworounds"
+	case "stale-batch":
+		p.Trace = "twobatches"
+	case "later":
+		p.Trace = rapid.SampledFrom([]string{"twobatches", "twobatches", "honest"}).Draw(rt, "trace")
 	default:
-		p.Trace = rapid.SampledFrom([]string{"honest", "honest", "dkgerr"}).Draw(rt, "trace")
+		p.Trace = rapid.SampledFrom([]string{"honest", "twobatches", "dkgerr", "decline"}).Draw(rt, "trace")
 	}
 	return p
 }
@@ -114,6 +118,42 @@ func c10Run(t *testing.T, st *vstat.Stats, p c10Plan) (v *viol) {
 		msg.Event = ne
 		key = fmt.Sprintf("replay:cross-event:%s->%s", src.Msg.Event, ne)
 		what = fmt.Sprintf("%s's genuine %s re-posted unchanged under the event name %s", src.Msg.SenderAddr, src.Msg.Event, ne)
+	case "stale-batch":
+		// a participant's genuine partial signatures for the first batch, re-posted while the second batch is collecting
+		var firsts, seconds []int
+		starts := 0
+		for _, i := range el {
+			ev := tr.Steps[i].Msg.Event
+			if ev == "event_signing_start" {
+				starts++
+			}
+			if ev == "event_signing_partial_sign_received" && starts == 1 {
+				firsts = append(firsts, i)
+			}
+			if starts == 2 && tr.Steps[i].State == "state_signing_await_partial_signs" {
+				seconds = append(seconds, i)
+			}
+		}
+		if len(firsts) == 0 || len(seconds) == 0 {
+			st.Class("discarded:no-two-batches")
+			return nil
+		}
+		src = tr.Steps[firsts[p.Step%len(firsts)]]
+		target = tr.Steps[seconds[p.Later%len(seconds)]]
+		msg = src.Msg
+		key = "replay:stale-batch:" + src.Msg.Event
+		what = fmt.Sprintf("%s's genuine partial signatures for the first batch re-posted while the second batch is collecting (board index %d)", src.Msg.SenderAddr, target.K)
+	case "later":
+		// the genuine message, unchanged, re-posted after it has been processed (a later step of the same round)
+		pos := p.Step%len(el) + 1 + p.Later
+		if pos >= len(el) {
+			st.Class("discarded:no-later-step")
+			return nil
+		}
+		target = tr.Steps[el[pos]]
+		msg = src.Msg
+		key = "replay:later-step:" + src.Msg.Event
+		what = fmt.Sprintf("%s's genuine %s (board index %d) re-posted unchanged %d messages later", src.Msg.SenderAddr, src.Msg.Event, src.K, target.K-src.K)
 	case "cross-round":
 		// the message of round A that corresponds to this step of round B
 		var ma *storage.Message
@@ -150,7 +190,7 @@ func c10Run(t *testing.T, st *vstat.Stats, p c10Plan) (v *viol) {
 		}
 		// non-triviality: the original is acceptable in its own round and step
 		nontrivial := false
-		if p.Mode == "cross-event" {
+		if p.Mode == "cross-event" || p.Mode == "later" || p.Mode == "stale-batch" {
 			nontrivial = true // the original was accepted when the trace was recorded; the replay names a step it was not made for
 		} else {
 			nd2, dir2, err := openSnapshot(tr, src.SnapDir)
